@@ -101,24 +101,27 @@ def run_exact(case):
     apart. Positions, query points and leeways are exact numbers (or left to the defaults), so the answer is the exact geometric
     filter: agents differ from every box face by at least a third / by 4096, far more than any rounding."""
     thirds = case["exact"] == "thirds"
+    dense = case["exact"] == "dense"         # integers beyond 2**53 ONE apart (closer than a float step): exact with explicit integer leeways
     model = Model()
     env = SpaceWorld(model, 12, 12, 0) if thirds else SpaceWorld(model, 2 ** 62, 2 ** 62, 0)
 
     def num(k):
-        return Fraction(int(k) % 34, 3) if thirds else 2 ** 53 + 1 + 4096 * (int(k) % 34)
+        return Fraction(int(k) % 34, 3) if thirds else 2 ** 53 + 1 + (1 if dense else 4096) * (int(k) % 34)
     agents = []
     for i, (kx, ky) in enumerate(case["slots"][:12]):
         a = Agent(f"a{i}", model)
         env.add_agent(a, num(kx), num(ky))
         agents.append((a, num(kx), num(ky)))
-    step = Fraction(1, 3) if thirds else 4096
-    labels = {"exact-thirds" if thirds else "exact-integers-beyond-2**53"}
+    step = Fraction(1, 3) if thirds else (1 if dense else 4096)
+    labels = {"exact-thirds" if thirds else ("exact-integers-beyond-2**53-one-apart" if dense else "exact-integers-beyond-2**53")}
     hit = False
     for qi, q in enumerate(case["queries"][:12]):
         qx, qy = num(q["x"]), num(q["y"])
         lw = q.get("leeway")                       # None: left to the default; otherwise a whole number of steps
         xl = q.get("x_leeway")
         kw = {}
+        if dense and lw is None:
+            lw = 0                                  # the float default (0.0) would round such coordinates: the leeway is always spelt out as an integer
         if lw is not None:
             kw["leeway"] = int(lw) * step
         if xl is not None:
@@ -262,6 +265,14 @@ def run_case(case):
         if what == "c":
             change(q)
             continue
+        if (qi + len(script)) % 3 == 0:
+            # the world's other services in between: shuffled listings and listings that the caller edits, random picks
+            for lst_ in (env.shuffle(), env.get_agents()):
+                if isinstance(lst_, list):
+                    lst_.reverse()
+                    del lst_[:1]
+            env.get_random_agent()
+            labels.add("other-services-used")
         pt = [Fraction(int(v), 8) + (max(-1, min(1, int(h))) * HAIR if kind == "space" else 0)
               for v, h in zip(q["q"], (list(q.get("qhair") or []) + [0, 0, 0])[:3])]
         if q.get("rel") is not None and resident:       # the query point is given relative to where an agent stands NOW
@@ -464,7 +475,7 @@ def strategy(tier):
                 agents.append({"pos": [agent_coord(ax) for ax in range(3)]})
         return {"kind": kind, "ext": ext, "wrap": wrap, "agents": agents, "moves": moves, "script": script}
     slot = st.tuples(st.integers(0, 5), st.integers(0, 5))
-    exact = st.fixed_dictionaries({"exact": st.sampled_from(["thirds", "huge"]), "slots": st.lists(slot, min_size=1, max_size=8),
+    exact = st.fixed_dictionaries({"exact": st.sampled_from(["thirds", "huge", "dense"]), "slots": st.lists(slot, min_size=1, max_size=8),
                                    "queries": st.lists(st.fixed_dictionaries({"x": st.integers(0, 5), "y": st.integers(0, 5), "by_kw": st.booleans(),
                                                                               "leeway": st.sampled_from([None, None, 0, 1, 2]),
                                                                               "x_leeway": st.sampled_from([None, None, 0, 1, 3])}), min_size=1, max_size=8)})
